@@ -205,6 +205,63 @@ fn fam_big(ctx: &CaseCtx, cov: &mut Cov) -> CaseOut {
     out
 }
 
+/// block sizes on the boundaries of the multi-byte integer encoding (127/128,
+/// 16383/16384, 2^21-1/2^21) for both index fields and both header size fields
+fn fam_vli(ctx: &CaseCtx, cov: &mut Cov) -> CaseOut {
+    let mut out = CaseOut::default();
+    let mut rng = ctx.rng();
+    let targets = [0usize, 1, 126, 127, 128, 129, 16382, 16383, 16384, 16385, (1 << 21) - 1, 1 << 21, (1 << 21) + 1];
+    let t = targets[(ctx.index as usize) % targets.len()];
+    let which = (ctx.index as usize / targets.len()) % 2; // 0: uncompressed size = t, 1: unpadded size = t
+    let check = *rng.pick(&[0u8, 1, 4]);
+    let bo = BlockOpts { with_packed: true, with_unpacked: true, extra_header_words: 0, dict_prop: 40 };
+    // uncompressed chunks only: sizes are exactly controllable
+    let make = |n: usize, rng: &mut crate::util::Rng| -> (Vec<u8>, Vec<u8>) {
+        let plain = rng.bytes(n);
+        let mut data = Vec::new();
+        let mut first = true;
+        for c in plain.chunks(65536) {
+            data.push(if first { 1 } else { 2 });
+            first = false;
+            data.extend_from_slice(&((c.len() - 1) as u16).to_be_bytes());
+            data.extend_from_slice(c);
+        }
+        data.push(0);
+        (data, plain)
+    };
+    let mut found = None;
+    if which == 0 {
+        found = Some(make(t, &mut rng));
+    } else {
+        // search the plain length whose unpadded size is exactly t
+        for n in t.saturating_sub(200)..=t {
+            let (data, plain) = make(n, &mut rng);
+            let b = BlockSpec::new(data.clone(), plain.clone(), check, &bo);
+            if b.unpadded_size() as usize == t {
+                found = Some((data, plain));
+                break;
+            }
+        }
+    }
+    let (data, plain) = match found {
+        Some(x) => x,
+        None => return out,
+    };
+    let mut blocks = vec![BlockSpec::new(data, plain, check, &bo)];
+    if rng.chance(1, 2) {
+        let (d2, p2, _) = gen_payload(&mut rng, true);
+        blocks.push(BlockSpec::new(d2, p2, check, &BlockOpts::default()));
+    }
+    let spec = XzSpec::new(check, blocks);
+    let (file, _) = spec.serialize();
+    cov_spec(cov, &spec, file.len());
+    cov.name(&format!("vli_boundary.{}={}", if which == 0 { "uncompressed" } else { "unpadded" }, t), 1);
+    let desc = format!("check {} block with {} size exactly {}", check, if which == 0 { "uncompressed" } else { "unpadded" }, t);
+    check_file("vli", &file, &spec.plain(), &desc, ReaderKind::Slice, &mut out, cov, ctx, true);
+    out.sample = Some(J::obj().set("file", J::s(desc)).set("file_len", J::i(file.len())));
+    out
+}
+
 /// files written by liblzma (multi-block through LZMA_FULL_FLUSH)
 fn fam_liblzma(ctx: &CaseCtx, cov: &mut Cov) -> CaseOut {
     let mut out = CaseOut::default();
@@ -286,6 +343,7 @@ pub fn monitor(tier: Tier) -> Monitor {
         ],
         families: vec![
             Family { name: "big", count: tier.pick(4, 12), priority: true, enumerated: false, run: fam_big },
+            Family { name: "vli_boundaries", count: tier.pick(52, 520), priority: true, enumerated: false, run: fam_vli },
             Family { name: "random", count: tier.pick(20_000, 600_000), priority: false, enumerated: false, run: fam_random },
             Family { name: "readers", count: tier.pick(300, 10_000), priority: false, enumerated: false, run: fam_readers },
             Family { name: "many_blocks", count: tier.pick(60, 1500), priority: false, enumerated: false, run: fam_many_blocks },
